@@ -13,7 +13,7 @@ ID = "C16"
 RULE = ("KNNSupervisedOPF and UnsupervisedOPF fits with max_k up to n-1 on Gaussian / lattice / duplicate / blob data; KNN validation sets with correct, "
         "systematically wrong (all accuracies 0) and shuffled labels. Source-free hooks record the event log: create_arcs(k), calculate_pdf(k), "
         "clustering(args), criterion values (opf_accuracy return values / normalised-cut return values). Offline checker: KNN candidates are exactly "
-        "1..max_k in order, best_k == smallest arg-max accuracy, the last arcs/pdf use best_k and are followed by the forced-prototype clustering; "
+        "1..max_k (each accuracy is attributed to the candidate whose arcs were created last; any order), best_k == smallest arg-max accuracy, the last arcs/pdf use best_k and are followed by the forced-prototype clustering; "
         "unsupervised evaluated ks are a prefix of min_k..max_k that stops early only after a cut == 0.0, best_k == smallest arg-min cut among them, "
         "final arcs/pdf/clustering use best_k and every arc list has best_k + n_plateaus entries. Non-trivial: >=3 candidates, >=2 distinct "
         "criterion values, best not the first candidate; distinct = case hash.")
@@ -117,12 +117,20 @@ def check(case):
         return res.reject("hook-missing:" + ",".join(rec.missing))
     best = int(m.subgraph.best_k)
     if kind == "knn":
-        accs = [e[1] for e in crit]
         max_k = case["max_k"]
-        ks = [e[1] for e in log if e[0] == "arcs"]
-        if ks[:max_k] != list(range(1, max_k + 1)) or len(accs) != max_k:
-            res.violate("selection", "C16/knn/candidates", f"candidate ks evaluated {ks[:-1]} with {len(accs)} accuracies; expected exactly 1..{max_k}")
+        # each accuracy belongs to the candidate whose arcs were created last before it; the ORDER in which candidates are tried is free
+        by_k, cur = {}, None
+        for e in log:
+            if e[0] == "arcs":
+                cur = e[1]
+            elif e[0] == "crit" and cur is not None:
+                by_k[cur] = e[1]
+        if sorted(by_k) != list(range(1, max_k + 1)) or len(crit) < max_k:
+            res.violate("selection", "C16/knn/candidates", f"candidate ks evaluated {sorted(by_k)} with {len(crit)} accuracies; expected every k in 1..{max_k}")
             return res
+        accs = [by_k[k] for k in range(1, max_k + 1)]
+        if [e[1] for e in log if e[0] == "arcs"][:max_k] != list(range(1, max_k + 1)):
+            res.see("knn_candidates_in_another_order")
         if any(not math.isfinite(a) for a in accs):
             return res.reject("criterion-not-finite")
         want = 1 + int(np.argmax(accs))          # argmax returns the first maximum = smallest k
@@ -145,26 +153,28 @@ def check(case):
         lo, hi = case["min_k"], case["max_k"]
         cuts = [(e[1], e[2]) for e in crit]
         ks = [k for k, _ in cuts]
-        if ks != list(range(lo, lo + len(ks))) or not ks or ks[-1] > hi:
-            res.violate("selection", "C16/unsup/candidates", f"evaluated ks {ks} are not a prefix of {lo}..{hi}")
+        # the ORDER in which candidates are tried is free; they must be distinct candidates of the range
+        if not ks or len(set(ks)) != len(ks) or min(ks) < lo or max(ks) > hi:
+            res.violate("selection", "C16/unsup/candidates", f"evaluated ks {ks} are not distinct candidates of {lo}..{hi}")
             return res
+        if ks != list(range(lo, lo + len(ks))):
+            res.see("unsup_candidates_in_another_order")
         if any(v in (float("inf"), float("-inf")) for _, v in cuts):
             return res.reject("criterion-not-finite")
         if all(v != v for _, v in cuts):
             return res.reject("criterion-all-nan")
         if any(v != v for _, v in cuts):
             res.see("nan_cut_candidates")
-        if ks[-1] != hi:
+        if len(ks) != hi - lo + 1:
             if cuts[-1][1] != 0.0:
-                res.violate("selection", "C16/unsup/stopped-early", f"evaluation stopped at k={ks[-1]} < max_k={hi} although its cut is {cuts[-1][1]!r} != 0")
+                res.violate("selection", "C16/unsup/stopped-early", f"only {ks} of {lo}..{hi} were evaluated although the last cut is {cuts[-1][1]!r} != 0")
                 return res
             res.see("unsup_early_stop_at_zero_cut")
         if any(v == 0.0 for _, v in cuts[:-1]):
-            res.violate("selection", "C16/unsup/continued-after-zero", f"a cut of exactly 0 at k={[k for k, v in cuts[:-1] if v == 0.0][0]} did not stop the evaluation: {cuts}")
-            return res
+            res.see("unsup_continued_after_zero_cut")          # allowed: the statement says it MAY stop
         vals = [v for _, v in cuts]
         # a NaN cut is not lower than anything: the smallest k with the lowest cut is taken over the comparable values
-        want = ks[int(np.argmin([v if v == v else float("inf") for v in vals]))]
+        want = min(((v if v == v else float("inf")), k) for k, v in cuts)[1]
         res.see("unsup_selection_checked")
         if best != want:
             res.violate("selection", "C16/unsup/not-smallest-argmin", f"best_k={best} but cuts by k are {cuts}: smallest k with the lowest cut is {want}")
@@ -177,11 +187,11 @@ def check(case):
             if len(nd.adjacency) != min(best, n - 1) + nd.n_plateaus:
                 res.violate("selection", "C16/unsup/final-model-not-best-k", f"sample {i}: arc list has {len(nd.adjacency)} entries, expected best_k + n_plateaus = {best}+{nd.n_plateaus}")
                 return res
-        if want != lo:
+        if want != min(ks):
             res.see("unsup_best_not_first")
         if len(set(vals)) < len(vals):
             res.see("accuracy_plateau")
-        res.nontrivial = len(ks) >= 3 and len(set(vals)) >= 2 and want != lo
+        res.nontrivial = len(ks) >= 3 and len(set(vals)) >= 2 and want != min(ks)
     res.cell(kind, case["gclass"], "k" + str(min(case["max_k"], 8)))
     return res
 
